@@ -116,6 +116,8 @@ def domain : String → Option Dom
   | "d1" => mkDom "{}" ["\"/a\"", "\"/a/b\"", "\"/a/0\""] ["1", "{\"b\":2}", "[7]"]
   | "d2" => mkDom "{\"k\":0}" ["\"/x~1y\"", "\"/x~1y/~0\"", "\"\""] ["{\"k\":1}", "2", "{\"x/y\":{}}"]
   | "d3" => mkDom "{\"l\":[5,[6]]}" ["\"/l/1/0\"", "\"/l/+1\"", "\"/l/2\""] ["9", "[8]", "{\"1\":7}"]
+  | "d4" => mkDom "{\"~1\":0,\"/\":1}" ["\"/~01\"", "\"/~1\"", "\"/~01/~10\""] ["1", "{\"/0\":2}", "{\"~1\":{}}"]
+  | "d5" => mkDom "{\"l\":[5,6]}" ["\"/l/++1\"", "\"/l/+01\"", "\"/l/-0\""] ["9", "[8]", "{\"1\":7}"]
   | _ => none
 
 def enumGo (ops : Array Op) : Nat → Reg → UInt64 → UInt64
